@@ -74,6 +74,16 @@ DT_MAX = datetime.datetime(9999, 12, 31, 23, 59, 59, 999000)
 DT_MIN = datetime.datetime(100, 1, 1)
 
 
+# host datetime kinds: a date, a naive datetime, aware datetimes in two offsets (same instant as the naive one under TZ=UTC, and another instant)
+TZ_P2 = datetime.timezone(datetime.timedelta(hours=2))
+TZ_M5 = datetime.timezone(datetime.timedelta(hours=-5))
+D_DATE = datetime.date(2024, 3, 10)
+D_NAIVE = datetime.datetime(2024, 3, 10)
+D_AWARE_P2 = datetime.datetime(2024, 3, 10, 2, 0, 0, tzinfo=TZ_P2)
+D_AWARE_M5 = datetime.datetime(2024, 3, 9, 19, 0, 0, tzinfo=TZ_M5)
+D_AWARE_LATER = datetime.datetime(2025, 1, 1, 12, 30, 0, 5000, tzinfo=TZ_M5)
+
+
 def cb_raise(args, options):  # pylint: disable=unused-argument
     raise KeyError('boom')
 
@@ -91,6 +101,7 @@ def pool_a():
         ('1e+308', 1e308), ('5e-324', 5e-324), ('inf', math.inf), ('nan', math.nan), ('big401', BIG401), ('2^53+1', 2 ** 53 + 1),
         ('int0', 0), ('int2', 2), ('int-8', -8), ('int1000', 1000), ('true', True), ('dt9999', DT_MAX), ('dt0100', DT_MIN),
         ('[inf]', [math.inf]), ('selfarr', selfarr()), ("''", ''), ("'a'", 'a'),
+        ('date', D_DATE), ('naive', D_NAIVE), ('aware+2', D_AWARE_P2), ('aware-5', D_AWARE_M5), ('aware-later', D_AWARE_LATER),
     ]
 
 
@@ -98,6 +109,7 @@ def pool_lib():
     return [
         ('null', None), ('true', True), ('0', 0), ('1', 1.0), ('-1', -1), ('1000', 1000), ('nan', math.nan), ("''", ''), ("'a'", 'a'),
         ('dt9999', DT_MAX), ("[inf,'a']", [math.inf, 'a']), ('selfarr', selfarr()), ('{a:1}', {'a': 1}), ('fnRaise', cb_raise), ('re', re.compile('a')),
+        ('date', D_DATE), ('aware+2', D_AWARE_P2), ('aware-later', D_AWARE_LATER), ('[dt kinds]', [D_NAIVE, D_AWARE_LATER, D_DATE, D_AWARE_P2, DT_MAX]),
     ]
 
 
@@ -105,8 +117,8 @@ def pool_lib8():
     return [('null', None), ('0', 0), ('1', 1.0), ('nan', math.nan), ("'a'", 'a'), ('selfarr', selfarr()), ('{a:1}', {'a': 1}), ('fnRaise', cb_raise)]
 
 
-N_A = 26
-N_LIB = 15
+N_A = 31
+N_LIB = 19
 N_LIB8 = 8
 
 
@@ -369,7 +381,7 @@ def same_value(a, b):
 
 def check_lib(case, acc):
     bs, funcs = impl()
-    pool = pool_lib() if case['pool'] == 'P15' else pool_lib8()
+    pool = pool_lib() if case['pool'] == 'P19' else pool_lib8()
     fid = case['fn']
     name, _, mode = fid.partition(':')
     idx = case['idx']
@@ -443,7 +455,7 @@ def fam_lib(arg):
         for arity in range(4):
             for idx in itertools.product(range(N_LIB), repeat=arity):
                 acc.cases += 1
-                kind = check_lib({'fn': fid, 'pool': 'P15', 'idx': list(idx)}, acc)
+                kind = check_lib({'fn': fid, 'pool': 'P19', 'idx': list(idx)}, acc)
                 acc.outcome((fid, kind))
                 if not sampled and arity == 2 and kind.startswith('failed:') and idx[0] >= 5:
                     sampled = True
@@ -737,6 +749,145 @@ def fam_models(arg):
 
 
 # ----------------------------------------------------------------------------------------------------------------
+# Family options: configurations of the embedding application (debug x logFn) must not change the outcome of a call
+# ----------------------------------------------------------------------------------------------------------------
+
+DEBUGS = ['absent', False, True]
+LOGFNS = ['absent', None, 'function']
+OPT_PREAMBLE = 'function scriptFail(aa):\n    return arrayGet(null, aa)\nendfunction\nfunction scriptOk(aa):\n    return arrayNew(aa, 1)\nendfunction\n'
+CURATED_CALLS = [
+    'hostFail(1)', 'hostOk(1)', 'hostArgsFail(1)', 'notfn(1)', 'scriptFail(1)', 'scriptOk(1)', 'arrayLength(arrayNew(1))', "stringIndexOf('abc', 'c')",
+    'arrayLength(arrayGet(null, 0))', "jsonParse('{')", "dataFilter(arrayNew(), '(')", "objectGet(null, 'a', 'dflt')", "stringLength(1)", "objectHas(1, 'a')",
+    "arrayIndexOf(arrayNew(1), 1, 5)", "systemLog('msg')", "systemLogDebug('msg')", "arraySort(arrayNew(2, 1), hostFail)", "mathMax(hostFail(1), 2)",
+]
+
+
+def host_ok(args, options):  # pylint: disable=unused-argument
+    return 7
+
+
+def host_args_fail(args, options):  # pylint: disable=unused-argument
+    load_impl()
+    from bare_script.value import ValueArgsError  # pylint: disable=import-outside-toplevel,import-error
+    raise ValueArgsError('arg', 1, 5)
+
+
+def option_calls():
+    """Deterministic list of call texts: every library function id with () and (null), then the curated ones."""
+    if 'ocalls' not in _CACHE:
+        out = []
+        for fid in lib_functions():
+            name, _, mode = fid.partition(':')
+            out.append((f'{name}()', mode))
+            out.append((f'{name}(null)', mode))
+        out.extend((c, '') for c in CURATED_CALLS)
+        _CACHE['ocalls'] = out
+    return _CACHE['ocalls']
+
+
+def bare_calls():
+    from bare_script.library import EXPRESSION_FUNCTION_MAP  # pylint: disable=import-outside-toplevel,import-error
+    names = sorted(n for n, full in EXPRESSION_FUNCTION_MAP.items() if full not in EXCLUDED)
+    return [f'{n}()' for n in names] + [f'{n}(null)' for n in names]
+
+
+def option_models(text):
+    key = ('omodel', text)
+    if key not in _CACHE:
+        bs = impl()[0]
+        _CACHE[key] = (bs.parse_script(f'rr = {text}\ndone = 1\nreturn rr\n'), bs.parse_expression(text), bs.parse_script(OPT_PREAMBLE))
+    return _CACHE[key]
+
+
+def run_config(text, mode, entry, debug, logfn):
+    """-> (outcome of run_guarded, done flag, log lines)"""
+    bs, funcs = impl()
+    script, expr, preamble = option_models(text)
+    g = {}
+    bs.execute_script(preamble, {'globals': g})
+    g.update({'hostFail': cb_raise, 'hostOk': host_ok, 'hostArgsFail': host_args_fail, 'notfn': 5})
+    logs = []
+    options = {'globals': g, 'maxStatements': 1000}
+    if debug != 'absent':
+        options['debug'] = debug
+    if logfn == 'function':
+        options['logFn'] = logs.append
+    elif logfn is None:
+        options['logFn'] = None
+    if mode:
+        options['fetchFn'] = FETCHERS[mode]
+    if entry == 'exec':
+        out = run_guarded(lambda: bs.execute_script(script, options))
+    else:
+        for n, f in funcs.items():
+            g.setdefault(n, f)
+        options['statementCount'] = 0
+        out = run_guarded(lambda: bs.evaluate_expression(expr, options, None, False))
+    return out, g.get('done'), logs
+
+
+def check_options(case, acc):
+    bs = impl()[0]
+    if case['entry'] == 'bare':
+        text = bare_calls()[case['call']]
+        opt = None if case['opt'] == 0 else {}
+        expr = bs.parse_expression(text)
+        out = run_guarded(lambda: bs.evaluate_expression(expr, opt))
+        ref = run_guarded(lambda: bs.evaluate_expression(expr, {'globals': {}, 'debug': True, 'logFn': lambda _line: None}))
+        acc.evals += 2
+        case = dict(case, text=text)
+        what = f'evaluate_expression of {text} with options={opt!r}'
+        cfg = None
+    else:
+        text, mode = option_calls()[case['call']]
+        debug, logfn = DEBUGS[case['debug']], LOGFNS[case['logfn']]
+        ref, ref_done, _ = run_config(text, mode, case['entry'], True, 'function')
+        out, done, _ = run_config(text, mode, case['entry'], debug, logfn)
+        acc.evals += 2
+        case = dict(case, text=text, options={'debug': repr(debug), 'logFn': repr(logfn)})
+        what = f'{text} through {"execute_script" if case["entry"] == "exec" else "evaluate_expression"} with debug={debug!r}, logFn={logfn!r}'
+        cfg = (ref_done, done)
+    if not check_outcome(out, case, acc, what):
+        return 'violation'
+    if not check_outcome(ref, case, acc, what + ' (reference configuration debug=True, logFn=function)'):
+        return 'violation'
+    if out[0] != ref[0] or (out[0] == 'doc' and out[1] != ref[1]) or (out[0] == 'value' and not same_value(out[1], ref[1])):
+        acc.violation(case, f'the outcome of the configuration debug=True + logFn=function: {ref[0]} {label_of(ref[1])}', f'{out[0]} {label_of(out[1])}',
+                      f'{what}: the outcome of the call depends on the debug/logFn configuration')
+        return 'violation'
+    if cfg is not None and case['entry'] == 'exec' and out[0] == 'value' and cfg[1] != 1:
+        acc.violation(case, 'the statement after the call runs (done = 1)', f'done = {cfg[1]!r}', f'{what}: execution did not continue after the call')
+        return 'violation'
+    return out[0] + ':' + (value_kind(out[1]) if out[0] == 'value' else out[1])
+
+
+def option_cases():
+    cases = []
+    for c in range(len(option_calls())):
+        for entry in ('exec', 'expr'):
+            for d in range(3):
+                for lf in range(3):
+                    cases.append({'call': c, 'entry': entry, 'debug': d, 'logfn': lf})
+    for c in range(len(bare_calls())):
+        for opt in (0, 1):
+            cases.append({'call': c, 'entry': 'bare', 'opt': opt})
+    return cases
+
+
+def fam_options(arg):
+    acc = Acc('options')
+    for case in arg:
+        acc.cases += 1
+        kind = check_options(case, acc)
+        acc.outcome((case['entry'], case.get('debug'), case.get('logfn'), kind))
+        if kind.endswith(':null') or kind.startswith('doc'):
+            acc.nontrivial += 1
+        if case.get('debug') == 2 and case.get('logfn') == 1 and case['call'] % 50 == 3:
+            acc.sample({'call': option_calls()[case['call']][0], 'entry': case['entry'], 'options': {'debug': True, 'logFn': None}, 'outcome': kind})
+    return acc.result()
+
+
+# ----------------------------------------------------------------------------------------------------------------
 # Family pow_int (guarded)
 # ----------------------------------------------------------------------------------------------------------------
 
@@ -926,6 +1077,10 @@ def families(tier):
                expected=nt * len(BIN_OPS) * N_A * N_A),
         Family('models', fam_models, split(mcases, 16), f'{len(model_cases())} hand-built schema-valid models + {len(fids)} functions x {len(SHAPES)} '
                'call shapes without an args member', expected=len(model_cases()) + len(fids) * len(SHAPES)),
+        Family('options', fam_options, split(option_cases(), 32),
+               f'{len(option_calls())} calls (every library function with () and (null) + {len(CURATED_CALLS)} curated: failing/succeeding host and script '
+               f'functions, non-function in call position, nested failures) x execute_script/evaluate_expression x 3 debug x 3 logFn settings, + '
+               f'{len(bare_calls())} built-in expression calls x options None / {{}}', expected=len(option_calls()) * 18 + len(bare_calls()) * 2),
         Family('pow_int', fam_pow_int, [[c] for c in pows], f'{len(pows)} int ** int cases with astronomically large exact result (the pairs the family ops '
                f'delegates, x {len(CONTEXTS)} contexts, + 1 pure script), each in a forked child under a {POW_CPU_S} s CPU / {POW_MEM >> 20} MiB guard',
                expected=len(pows)),
@@ -935,12 +1090,13 @@ def families(tier):
     return fams[:1] + extra + fams[1:]
 
 
-_CHECKS = {'ops': check_ops, 'lib': check_lib, 'programs': check_programs, 'models': check_models, 'pow_int': check_pow_int, 'growth': check_growth, 'chains': check_chains}
+_CHECKS = {'ops': check_ops, 'lib': check_lib, 'programs': check_programs, 'models': check_models, 'pow_int': check_pow_int, 'growth': check_growth, 'chains': check_chains,
+           'options': check_options}
 
 
 def replay(family, case):
     acc = Acc(family)
-    case = {k: v for k, v in case.items() if k not in ('labels', 'source', 'label', 'template', 'options')}
+    case = {k: v for k, v in case.items() if k not in ('labels', 'source', 'label', 'template', 'options', 'text')}
     _CHECKS[family](case, acc)
     res = acc.result()
     return {'differs': bool(res['nviol'] or res['nknown']), 'violations': res['violations'] + res['known_violations']}
